@@ -131,6 +131,7 @@ package message1_1
 //@ func message1_1.FromNet {C12,C15}
 //@   after BindnodeRegistry.TypeFromReader [decodes-into-prototype] $r1 == nil ==> dyntype_is($r0, *TransferMessage1_1) && $r0.(*TransferMessage1_1) != nil
 //@   ensures [decode-error] ret(BindnodeRegistry.TypeFromReader, 1) != nil ==> err != nil && result0 == nil
+//@   ensures [kind] err == nil ==> result0 != nil && (result0.IsRequest() ? implements(result0, datatransfer.Request) : implements(result0, datatransfer.Response))
 //@   ensures [body] err == nil ==> result0 != nil && calls(BindnodeRegistry.TypeFromReader) == 1 &&
 //@       ((*ret(BindnodeRegistry.TypeFromReader, 0).(*TransferMessage1_1)).IsRequest ?
 //@           (*ret(BindnodeRegistry.TypeFromReader, 0).(*TransferMessage1_1)).Request != nil && dyntype_is(result0, *TransferRequest1_1) &&
@@ -140,9 +141,15 @@ package message1_1
 //@ func message1_1.FromIPLD {C12,C16}
 //@   after BindnodeRegistry.TypeFromNode [decodes-into-prototype] $r1 == nil ==> dyntype_is($r0, *TransferMessage1_1) && $r0.(*TransferMessage1_1) != nil
 //@   ensures [decode-error] calls(BindnodeRegistry.TypeFromNode) == 1 && ret(BindnodeRegistry.TypeFromNode, 1) != nil ==> err != nil && result0 == nil
+//@   ensures [kind] err == nil ==> result0 != nil && (result0.IsRequest() ? implements(result0, datatransfer.Request) : implements(result0, datatransfer.Response))
 //@   ensures [body] err == nil ==> result0 != nil && calls(BindnodeRegistry.TypeFromNode) == 1 &&
 //@       ((*ret(BindnodeRegistry.TypeFromNode, 0).(*TransferMessage1_1)).IsRequest ?
 //@           (*ret(BindnodeRegistry.TypeFromNode, 0).(*TransferMessage1_1)).Request != nil && dyntype_is(result0, *TransferRequest1_1) &&
 //@              result0.(*TransferRequest1_1) == (*ret(BindnodeRegistry.TypeFromNode, 0).(*TransferMessage1_1)).Request :
 //@           (*ret(BindnodeRegistry.TypeFromNode, 0).(*TransferMessage1_1)).Response != nil && dyntype_is(result0, *TransferResponse1_1) &&
 //@              result0.(*TransferResponse1_1) == (*ret(BindnodeRegistry.TypeFromNode, 0).(*TransferMessage1_1)).Response)
+
+//@ func (*message1_1.TransferRequest1_1).MessageForProtocol {C12,C15}
+//@   ensures [same-message] err == nil ==> result0 != nil && dyntype_is(result0, *TransferRequest1_1) && result0.(*TransferRequest1_1) == trq
+//@ func (*message1_1.TransferResponse1_1).MessageForProtocol {C12,C15}
+//@   ensures [same-message] err == nil ==> result0 != nil && dyntype_is(result0, *TransferResponse1_1) && result0.(*TransferResponse1_1) == trsp
